@@ -54,6 +54,15 @@ func jobsFor(prop, tier string) []*Job {
 			add(&Job{Name: "O1O4-set2", Pkg: "ratelimit", Harness: "VerifC13Set", Params: p("tpt", 0), SkipInc: true, TimeoutS: 120, IncMs: 500, MapPermMax: 2, Inductive: true,
 				Bounds: "two buckets in arbitrary invariant-satisfying states (tpt symbolic in [1,2^36]), both map iteration orders, 0<=tokens<=2^21"})
 		}
+	case "C04":
+		add(&Job{Name: "O1-step", Pkg: "connlimit", Harness: "VerifC04Step", Inductive: true,
+			Bounds: "one acquire/release from an arbitrary consistent state: 3 sources, 0<=max<2^31, in-flight counts symbolic in [0,max]"})
+		depth, top := 3, 2
+		if thorough {
+			depth, top = 4, 2
+		}
+		add(&Job{Name: fmt.Sprintf("O2-serve/depth=%d,top=%d", depth, top), Pkg: "connlimit", Harness: "VerifC04Serve", Params: p("depth", depth, "top", top),
+			Bounds: fmt.Sprintf("%d sequential request trees, overlap depth <= %d, 2 sources, max symbolic in [0,2^31), every handler returns or panics (symbolic)", top, depth)})
 	}
 	return js
 }
